@@ -481,9 +481,37 @@ fn check(args: &[String]) {
     alt_anchor_digests.sort();
     alt_anchor_digests.dedup();
     if alt_anchor_digests.len() > 1 {
-        herr.push(format!("anchor tables differ between worker processes of the target-feature build: {:?}", alt_anchor_digests));
+        // the same order dependence, seen among the processes of the target-feature build
+        let mut reported = false;
+        if let Some((o0, t0)) = alt_anchor_tables.first() {
+            'outer_tf: for (o1, t1) in alt_anchor_tables.iter().skip(1) {
+                for (k, v) in t0 {
+                    if t1.get(k).map(|x| x != v).unwrap_or(false) {
+                        reported = true;
+                        if anchor_digests.len() <= 1 {
+                            let vj = json!({"property": "C15", "class": "cross-process-anchor", "step": 0, "family": "", "variant": "",
+                                "detail": format!("{} (target-feature build): the value a freshly constructed instance returns at process start depends on the order in which other types were used before it in the process (anchor orders {:?} vs {:?})", k, o0, o1),
+                                "expected": "", "got": "", "also_violates": []});
+                            let path = format!("{}/{}-anchor-order-tf-{}.json", replay_dir, prop.name(), seed);
+                            let _ = std::fs::create_dir_all(&replay_dir);
+                            let rj = json!({"format": "block-ciphers-sim-replay/1", "property": "C15", "engine": "native", "build": "tf", "anchor_orders": [o0, o1], "entry": k, "violation": vj});
+                            let _ = std::fs::write(&path, serde_json::to_string_pretty(&rj).unwrap());
+                            if prop == Prop::C15 {
+                                violations.push(json!({"replay": path, "violation": vj}));
+                            } else if notes.len() < 12 {
+                                notes.push(format!("note: C15-class divergence (pristine anchor tables of the target-feature build differ between processes with different type orders: {}), not this check's property", k));
+                            }
+                        }
+                        break 'outer_tf;
+                    }
+                }
+            }
+        }
+        if !reported {
+            herr.push(format!("anchor tables differ between worker processes of the target-feature build: {:?}", alt_anchor_digests));
+        }
     }
-    if let (Some((_, t0)), Some((_, t1))) = (anchor_tables.first(), alt_anchor_tables.first()) {
+    if let (Some((_, t0)), Some((_, t1)), true) = (anchor_tables.first(), alt_anchor_tables.first(), anchor_digests.len() <= 1 && alt_anchor_digests.len() <= 1) {
         for (k, v) in t0 {
             if t1.get(k).map(|x| x != v).unwrap_or(false) {
                 let vj = json!({"property": "C03", "class": "cross-build-anchor", "step": 0, "family": "", "variant": "",
